@@ -243,7 +243,7 @@ func TestC10(t *testing.T) {
 	defer col.Finish()
 	col.Corpus()
 	env := col.Env
-	pu := plainUniverse()
+	pu := valueUniverse()
 
 	chain := c10Chain.On(col, fmt.Sprintf("exhaustive: if/elsif/else chains of 1..4 branches (and unless/else) in which every position takes every one of the %d plain universe values while the other positions are all nil or all true, and every ordered pair of universe values in the first two positions of a three-branch chain; each rendered four times with the conditions after the selected branch replaced by a counting filter, a filter that returns an error, an unknown filter and a division by zero. Oracle: exactly the first truthy branch (only nil and false are falsy), no error and no evaluation after it. Distinct by construction; non-trivial with >= 2 branches", len(pu)), true)
 	idx := 0
